@@ -124,6 +124,24 @@ def gen_cases(tier, seed):
                                  [c, d, a], [], [x], [x, a], [y, c, d]])
             explicit = list(dict.fromkeys(explicit))
             forced_pre = 'einstein' if x in explicit or y in explicit else None
+        if r.random() < 0.04:
+            # U_xa / U_xb: an inverse power is no second factor of a pair
+            allp = pools[space]
+            x, a, b = r.sample(allp, 3)
+            first = r.random() < 0.5
+            objs = []
+            for z, ex in ((a, 1), (b, -r.choice([1, 1, 2]))):
+                up = [x, z] if first else [z, x]
+                o = {'t': kind, 'name': 'U', 'up': up}
+                if kind == 'anti':
+                    o = {'t': 'anti', 'name': 'U', 'up': up[:1], 'lo': up[1:],
+                         'bk': 0}
+                if ex != 1:
+                    o['exp'] = ex
+                objs.append(o)
+            objs.append({'t': 'non', 'name': 'x', 'up': [a, b]})
+            terms = [{'pref': r.choice(['1', '-1', '1/2']), 'objs': objs}]
+            mode, explicit = 'einstein', None
         if r.random() < 0.06:
             # a resolvable pair (or power) whose only other object is a bracket
             # (sum) with exponent 1: after the replacement the product is a sum of
